@@ -9,6 +9,7 @@ import (
 	"fmt"
 	"io"
 	"io/fs"
+	"iter"
 	"os"
 	"path/filepath"
 	"runtime/debug"
@@ -175,6 +176,93 @@ func WalkIterRoot(root *gtree.Node, breakAt int, opts ...gtree.Option) ([]WalkRe
 	})
 	reread(recs, kept)
 	return recs, o
+}
+
+// WalkNested walks root with the callback form; the at-th visit (1-based) walks the same root once more from inside
+// the callback (callback form, or iterator form left after innerBreak visits when innerBreak > 0).  The result of a
+// walk is a function of the tree: both walks must deliver what a walk alone delivers.
+func WalkNested(root *gtree.Node, at, innerBreak int, iterOuter bool, opts ...gtree.Option) (outer, inner []WalkRec, oc Outcome) {
+	innerWalk := func() error {
+		if innerBreak > 0 {
+			for wn, err := range gtree.WalkIterFromRoot(root, opts...) {
+				if err != nil {
+					return err
+				}
+				inner = append(inner, recOf(wn))
+				if len(inner) == innerBreak {
+					break
+				}
+			}
+			return nil
+		}
+		return gtree.WalkFromRoot(root, func(wn *gtree.WalkerNode) error {
+			inner = append(inner, recOf(wn))
+			return nil
+		}, opts...)
+	}
+	oc = Guard(func() error {
+		if iterOuter {
+			for wn, err := range gtree.WalkIterFromRoot(root, opts...) {
+				if err != nil {
+					return err
+				}
+				outer = append(outer, recOf(wn))
+				if len(outer) == at {
+					if err := innerWalk(); err != nil {
+						return err
+					}
+				}
+			}
+			return nil
+		}
+		return gtree.WalkFromRoot(root, func(wn *gtree.WalkerNode) error {
+			outer = append(outer, recOf(wn))
+			if len(outer) == at {
+				return innerWalk()
+			}
+			return nil
+		}, opts...)
+	})
+	return
+}
+
+// WalkTwoPull takes two pull iterators of one root and advances them in turn (the second one starts when the first
+// has delivered lead nodes).
+func WalkTwoPull(root *gtree.Node, lead int, opts ...gtree.Option) (a, b []WalkRec, oc Outcome) {
+	oc = Guard(func() error {
+		n1, s1 := iter.Pull2(gtree.WalkIterFromRoot(root, opts...))
+		defer s1()
+		n2, s2 := iter.Pull2(gtree.WalkIterFromRoot(root, opts...))
+		defer s2()
+		d1, d2 := false, false
+		for !d1 || !d2 {
+			if !d1 {
+				wn, err, ok := n1()
+				if !ok {
+					d1 = true
+				} else if err != nil {
+					return err
+				} else {
+					a = append(a, recOf(wn))
+				}
+			}
+			if !d2 && (len(a) >= lead || d1) {
+				wn, err, ok := n2()
+				if !ok {
+					d2 = true
+				} else if err != nil {
+					return err
+				} else {
+					b = append(b, recOf(wn))
+				}
+			}
+			if len(a)+len(b) > 100000 {
+				return fmt.Errorf("the two iterators delivered more than 100000 nodes")
+			}
+		}
+		return nil
+	})
+	return
 }
 
 // RangeWalk ranges over an iterator created earlier.
